@@ -189,6 +189,9 @@ uint32_t File::defaultLogContainerSize() const {
 
 void File::setDefaultLogContainerSize(uint32_t defaultLogContainerSize) {
     m_uncompressedFile.setDefaultLogContainerSize(defaultLogContainerSize);
+
+    /* the buffer holds one log container (as set up in the constructor): a container larger than the buffer is never filled */
+    m_uncompressedFile.setBufferSize(defaultLogContainerSize);
 }
 
 ObjectHeaderBase * File::createObject(ObjectType type) {
